@@ -35,7 +35,7 @@ def install_re(E):
 class ResolveReferencedDetections(Contract):
     id = "C02.ConditionSelector.resolve_referenced_detections"
     target = f"{COND}:ConditionSelector.resolve_referenced_detections"
-    props = ("C02", "C11", "C19")
+    props = ("C02", "C11", "C19", "C12")
     cases = tuple((n, them) for n in (0, 1, 2, 3) for them in (False, True))
     assumed = ["re.fullmatch(p.replace('*', '.*'), name) <=> glob(p, name) for name patterns over [A-Za-z0-9_*] (checked natively by the bounded tier)", "0..3 detection names (unrolled), contents symbolic"]
 
@@ -109,7 +109,7 @@ class ConditionItemFromParsed(Contract):
     groups stay nested"""
     id = "C02.ConditionItem.from_parsed"
     target = f"{COND}:ConditionItem.from_parsed"
-    props = ("C02", "C01")
+    props = ("C02", "C01", "C11", "C12")
     cases = tuple((cls, n, nest) for cls in ("ConditionAND", "ConditionOR", "ConditionNOT") for n in (1, 2, 3, 4) for nest in (False, True)
                   if (cls == "ConditionNOT") == (n == 1))
     assumed = ["pyparsing hands over ParseResults whose element 0 is the token group of the level: [operand, keyword, operand, ...] for binary "
